@@ -176,22 +176,55 @@ func DecodeGoTags(s string) (DecodedIdentifier, error) {
 // List from https://github.com/golang/lint/blob/master/lint.go
 var commonInitialisms = []string{"ACL", "API", "ASCII", "CPU", "CSS", "DNS", "EOF", "GUID", "HTML", "HTTP", "HTTPS", "ID", "IP", "JSON", "LHS", "QPS", "RAM", "RHS", "RPC", "SLA", "SMTP", "SQL", "SSH", "TCP", "TLS", "TTL", "UDP", "UI", "UID", "UUID", "URI", "URL", "UTF8", "VM", "XML", "XMPP", "XSRF", "XSS"}
 
+// segmentInitialisms splits s into a sequence of common initialisms that
+// covers all of s, trying longer initialisms first at every position (so
+// "HTTPSID" is https+id, while "HTTPSSH" is http+ssh since "https" leaves "SH").
+// It returns nil if there's no such sequence.
+func segmentInitialisms(s string) []string {
+	if len(s) == 0 {
+		return []string{}
+	}
+	for l := len(s); l > 0; l-- {
+		if !isCommonInitialism(s[:l]) {
+			continue
+		}
+		if rest := segmentInitialisms(s[l:]); rest != nil {
+			return append([]string{strings.ToLower(s[:l])}, rest...)
+		}
+	}
+	return nil
+}
+
+func isCommonInitialism(s string) bool {
+	for _, initialism := range commonInitialisms {
+		if s == initialism {
+			return true
+		}
+	}
+	return false
+}
+
 // Given an entirely uppercase string, extract any initialisms sequentially from the start of the string and return them with the remainder of the string
 func extractInitialisms(s string) []string {
+	if words := segmentInitialisms(s); words != nil {
+		// the whole string is made of initialisms
+		return words
+	}
 	words := []string{}
 
 	for {
-		initialismFound := false
+		// take the longest initialism that's a prefix of what's left
+		longest := ""
 		for _, initialism := range commonInitialisms {
-			if len(s) >= len(initialism) && initialism == s[:len(initialism)] {
-				initialismFound = true
-				words = append(words, strings.ToLower(initialism))
-				s = s[len(initialism):]
+			if len(initialism) > len(longest) && strings.HasPrefix(s, initialism) {
+				longest = initialism
 			}
 		}
-		if !initialismFound {
+		if longest == "" {
 			break
 		}
+		words = append(words, strings.ToLower(longest))
+		s = s[len(longest):]
 	}
 
 	if len(s) > 0 {
